@@ -182,12 +182,23 @@ def facts_at(func, node):
         if names or stored:
             facts[:] = [f for f in facts if not _mentions(f, names, stored)]
 
-    def kill_test(test):
-        """what the test itself writes while it is evaluated (a walrus, `f(&x)`, a mutating call) is not known afterwards"""
-        kill([ast.Expr(value=test)])
-        walrus = {n.target.id for n in ast.walk(test) if isinstance(n, ast.NamedExpr) and isinstance(n.target, ast.Name)}
-        if walrus:
-            facts[:] = [f for f in facts if not _mentions(f, walrus, set())]
+    def add_test_facts(test, negated=False):
+        """the conjuncts of a test (of its negation) that still hold when the test has been evaluated completely: a conjunct is
+        dropped when a LATER part of the test may write what it mentions (`x >= 0 and advance(&x)`, a walrus, a mutating call)"""
+        cs = conjuncts(negate(test) if negated else test)
+        for i, c in enumerate(cs):
+            later = [ast.Expr(value=x) for x in cs[i + 1:]]
+            names, stored = _rebound(later)
+            for p_ in getattr(_rebound, "pointer_args", ()):
+                names |= _alias.closure_of({p_}, grp) & addr_taken
+            for st_ in later:
+                stored |= _inplace_written(st_, grp)
+                names |= {n.target.id for n in ast.walk(st_) if isinstance(n, ast.NamedExpr) and isinstance(n.target, ast.Name)}
+            if stored:
+                stored = _alias.closure_of(stored, grp)
+                names |= stored & addr_taken
+            if not _mentions(c, names, stored):
+                facts.append(c)
 
     def descend(block):
         for k, st in enumerate(block):
@@ -196,30 +207,28 @@ def facts_at(func, node):
                 for j, prev in enumerate(block[:k]):
                     if isinstance(prev, ast.If) and not prev.orelse and _leaves_block(prev.body):
                         kill([prev])
-                        facts.extend(conjuncts(negate(prev.test)))
-                        kill_test(prev.test)
+                        add_test_facts(prev.test, negated=True)
                     elif isinstance(prev, ast.If) and prev.orelse and _leaves_block(prev.orelse) and not _leaves_block(prev.body):
                         # the test held when the body was entered: what the body (and the test itself) writes afterwards kills it
                         kill([ast.Expr(value=prev.test)])
-                        facts.extend(conjuncts(prev.test))
-                        kill_test(prev.test)
+                        add_test_facts(prev.test)
                         kill(list(prev.body))
                     else:
                         kill([prev])
                 if isinstance(st, ast.If):
                     if any(contains(b) for b in st.body):
-                        facts.extend(conjuncts(st.test))
-                        kill_test(st.test)
+                        add_test_facts(st.test)
                         descend(st.body)
                     elif any(contains(b) for b in st.orelse):
-                        facts.extend(conjuncts(negate(st.test)))
-                        kill_test(st.test)
+                        add_test_facts(st.test, negated=True)
                         descend(st.orelse)
                     return
                 if isinstance(st, (ast.For, ast.While, ast.AsyncFor)):
                     kill([st])      # a later iteration sees what any part of the loop rebinds
                     if isinstance(st, ast.For) and any(contains(b) for b in st.body):
                         facts.extend(_range_facts(st))
+                    if isinstance(st, ast.While) and any(contains(b) for b in st.body):
+                        add_test_facts(st.test)          # the test held when this iteration began
                 elif isinstance(st, (ast.With, ast.AsyncWith)):
                     kill([ast.Expr(value=i.optional_vars) for i in st.items if i.optional_vars is not None])
                 for fld in ("body", "orelse", "finalbody"):
